@@ -29,15 +29,17 @@ type Case struct {
 	Display bool       `json:"display_messages"`
 	Record  bool       `json:"record_messages"`
 	Chunks  []int      `json:"chunks"`
+	EOFWith bool       `json:"eof_with_data"` // the reader returns its last data together with io.EOF
 	Delays  []int      `json:"writer_delays_us"`
 	Procs   int        `json:"gomaxprocs"`
 }
 
 type chunkReader struct {
-	data   []byte
-	pos    int
-	chunks []int
-	call   int
+	data    []byte
+	pos     int
+	chunks  []int
+	call    int
+	eofWith bool
 }
 
 func (r *chunkReader) Read(p []byte) (int, error) {
@@ -56,6 +58,9 @@ func (r *chunkReader) Read(p []byte) (int, error) {
 	}
 	copy(p, r.data[r.pos:r.pos+n])
 	r.pos += n
+	if r.eofWith && r.pos >= len(r.data) {
+		return n, io.EOF
+	}
 	return n, nil
 }
 
@@ -81,7 +86,7 @@ func check(c Case, o *stats.Obs) error {
 	}
 	done := make(chan struct{})
 	go func() {
-		rtcmfilter.HandleMessages(drive.StartTime, &chunkReader{data: input, chunks: c.Chunks}, w, cfg)
+		rtcmfilter.HandleMessages(drive.StartTime, &chunkReader{data: input, chunks: c.Chunks, eofWith: c.EOFWith}, w, cfg)
 		close(done)
 	}()
 	select {
@@ -143,6 +148,7 @@ func gen1(t *rapid.T) Case {
 	for i := 0; i < n; i++ {
 		c.Chunks = append(c.Chunks, rapid.SampledFrom([]int{1, 3, 16, 4096}).Draw(t, "chunk"))
 	}
+	c.EOFWith = rapid.Bool().Draw(t, "eofWithData")
 	nd := rapid.IntRange(0, 3).Draw(t, "nDelays")
 	for i := 0; i < nd; i++ {
 		c.Delays = append(c.Delays, rapid.SampledFrom([]int{0, 20, 200}).Draw(t, "delay"))
